@@ -308,6 +308,10 @@ def format_prefactor(term: Term, backend: str) -> str:
     """Formats the prefactor for Python (einsum) or C++ (libtensor)."""
     # extract number and symbolic prefactor
     number_pref = term.prefactor
+    for obj in term.objects:
+        if isinstance(obj.base, Symbol) and obj.exponent < 0:
+            raise NotImplementedError("Prefactors not implemented for "
+                                      f"divisions. Found {obj}.")
     symbol_pref = " * ".join(
         [str(obj.base) for obj in term.objects if isinstance(obj.base, Symbol)
          for _ in range(obj.exponent)]
